@@ -8,7 +8,7 @@ from __future__ import annotations
 
 from typing import Dict, Optional, Tuple
 
-from .terms import Term, cval, is_const
+from .terms import Term, cval, is_const, mk
 
 
 def unsnap(t: Term) -> Term:
@@ -182,8 +182,20 @@ def lin(t: Term):  # noqa: F811  (wrapper adding constant lengths)
 _orig_cong = cong
 
 
+def _divmod_part(t: Term):
+    """divmod(a, b)[0] is a // b and divmod(a, b)[1] is a % b"""
+    if t.op == "sub" and is_const(t.args[1]) and cval(t.args[1]) in (0, 1) and not isinstance(cval(t.args[1]), bool):
+        b = unsnap(t.args[0])
+        if b.op == "call" and isinstance(b.args[0], Term) and b.args[0].op == "builtin" and b.args[0].args[0] == "divmod" and len(b.args[1]) == 2 and not b.args[2]:
+            return mk("bin", "FloorDiv" if cval(t.args[1]) == 0 else "Mod", b.args[1][0], b.args[1][1])
+    return None
+
+
 def cong(t: Term, m: int):  # noqa: F811
     t = unsnap(t)
+    dm = _divmod_part(t)
+    if dm is not None:
+        t = dm
     if t.op == "len":
         l = lin(t)
         if l is not None and set(l.keys()) <= {1}:
